@@ -164,7 +164,7 @@ def _compression_(psi, target, method,
             converged.append(abs(doverlap) < overlap_tol)
 
         if Schmidt_tol is not None:
-            max_dS = max((Schmidt[k] - Schmidt_old[k]).norm() for k in Schmidt.keys())
+            max_dS = max(((Schmidt[k] - Schmidt_old[k]).norm() for k in Schmidt.keys()), default=0.)
             Schmidt_old = Schmidt.copy()
             converged.append(max_dS < Schmidt_tol)
 
